@@ -1,8 +1,8 @@
 CFG = {
-    "lean_targets": ["Norad.Props.C16"],
+    "lean_targets": ["Norad.Props.C16", "Norad.Props.C16Source"],
     "audit": "Norad/Audit/C16.lean",
     "gens": ["C16", "C16path", "C16req"],
-    "extract": "store_consts",
+    "extract": ["store_consts", "store_ops"],
     "search_timeout": 75,
     "rule": ("operation histories (insert/remove/get/contains_key/clear/iter/keys/len/is_empty, environment steps on the source "
              "tree, Font::save into a sandbox with sentinels whose target holds sentinels / is absent / is an empty directory) on font.data / font.images, empty or loaded lazily from a generated tree; "
@@ -29,7 +29,7 @@ MANIFEST = {
              "pairwise distinct and prefix-free by components; image keys single-component; loaded image contents start with the PNG signature) "
              "is preserved by every operation and hence under every history with arbitrary disk changes in between; a rejected insertion changes nothing; "
              "a lazy get returns the disk's bytes of the moment of first access and is stable afterwards; save refuses before any effect when an entry is in "
-             "error and otherwise writes every entry verbatim. A store listed from a well-formed tree satisfies the invariant and contains every plain file; iter's forcing and the tree a save leaves do not depend on the HashMap order; the store-writing plan (data: mkdirAll+write per entry, images: mkdir then writes) runs on the FS family's abstract file system and leaves exactly the verbatim files; PNG signature, directory names, validate_entry clauses and the force-load loop are re-extracted from the source on every run and tied by decide theorems. Tied to the code by operation histories on the real stores (empty and lazily loaded) "
+             "error and otherwise writes every entry verbatim. A store listed from a well-formed tree satisfies the invariant and contains every plain file; iter's forcing and the tree a save leaves do not depend on the HashMap order; the store-writing plan (data: mkdirAll+write per entry, images: mkdir then writes) runs on the FS family's abstract file system and leaves exactly the verbatim files; PNG signature, directory names, validate_entry clauses and the force-load loop are re-extracted from the source on every run and tied by decide theorems; the store operations themselves (both validate_entry clause by clause, load_item, get, insert, remove, clear, keys, is_empty, len, contains_key, iter, both directory walks, Store::new, and the two store-writing blocks of save_impl) are TRANSLATED from src/datastore.rs / src/font.rs into Lean on every run (Generated/StoreOps.lean, Generated/StorePlanGen.lean) and proved equal to the model (source_*_eq_model), so the theorems are about the code as it is now. Tied to the code by operation histories on the real stores (empty and lazily loaded) "
              "with environment steps and sandboxed saves, and by an exhaustive small-alphabet comparison of the path model with std::path."),
     "design_ref": "5 / C16, 4 (Path), Appendix C",
     "note": "trusted: Lean kernel, the three standard axioms, harness and driver glue, std::path/std::fs as modelled; keys with ./.. components and trailing separators are recorded findings",
